@@ -41,7 +41,9 @@ CHECKS = {
  'C01': dict(
    text=('PARTIAL by nature. Theorems (Coquelicot): the oracles the inverse transforms are judged against are true Abel pairs -- '
          'abel_bump for every p (induction), the exact Gaussian factorisation, an Interval enclosure of the Gaussian constant, the '
-         'closed form within 2^-39 of the finite-range line integral, Abel scaling with pixel size; per-run Interval goals tie the '
+         'closed form within 2^-39 of the finite-range line integral, Abel scaling with pixel size; and each basis method is EXACT ON ITS OWN SPAN: '
+         'for daun degrees 0-2 and onion peeling, for every size and coefficient vector, the forward matrix (regenerated formulas) applied to the '
+         'coefficients is the exact Abel projection of the spanned function and any left inverse returns the coefficients; per-run Interval goals tie the '
          'floats of the Python oracles to the Coq terms. The property\'s envelope, refinement and dr clauses for the ten numerical '
          'schemes are NOT theorems: they are decided by a numeric sweep (all methods, documented options, families, sizes) against '
          'calibrated envelope laws (1.5 x fitted K (dr/scale)^q) and produce replays; C09/C03/C04 carry the exactness theorems.'),
@@ -50,7 +52,8 @@ CHECKS = {
    design='DESIGN.md §3 C01, §6'),
  'C02': dict(
    text=('PARTIAL by nature, same structure as C01 for the forward direction: oracle theorems (bump, Gaussian, scaling: a forward '
-         'transform of f(r/a) scales by a, i.e. the absolute scale set by dr), per-run Interval goals for the oracle floats; the '
+         'transform of f(r/a) scales by a, i.e. the absolute scale set by dr; forward_exact_on_span for daun degrees 0-2: the forward matrix '
+         'times the coefficients is the exact projection at every pixel), per-run Interval goals for the oracle floats; the '
          'envelope, refinement and exact-dr clauses for basex, daun, direct, hansenlaw, rbasex are decided by the calibrated numeric '
          'sweep with replays.'),
    note=BASE_NOTE + 'Envelope/refinement clauses swept only; two recorded refinement-floor findings (basex correction=False, hansenlaw hold_order=1).',
@@ -151,8 +154,8 @@ CHECKS = {
  'C13': dict(
    text=('Theorems (Coq): centre of mass of a point-symmetric image is its centre, follows shifts and ignores positive scaling; the '
          'autoconvolution of a symmetric projection is maximal exactly at twice the centre and only there (so the method returns '
-         'the centre on the half-pixel grid); image_center and unselected axes; convolution shift equivariance proved for '
-         'symmetric images only (_partial). Tie: exact integer-image correspondence of model/Origin.v. Search: equivariance, '
+         'the centre on the half-pixel grid); image_center and unselected axes; translation equivariance of the convolution method for '
+         'ANY image with non-zero projections (autoconvolution shifts by 2a, first argmax follows an index shift). Tie: exact integer-image correspondence of model/Origin.v. Search: equivariance, '
          'scaling, symmetric images, Gaussian-fit on noiseless spots.'),
    note=BASE_NOTE + 'Gaussian-fit optimiser (scipy curve_fit) is external: swept to 1e-6 px only.',
    technique='Coq proof over exact-rational model + vm_compute correspondence + property search on implementation',
@@ -172,7 +175,8 @@ CHECKS = {
    text=('Theorems: for all 18 (order <= 8, parity) cases, all real coefficient vectors and all angles the cos^n, cos^n sin^m and '
          'Legendre representations define the same angular function; I = 4 pi r^2 P0, beta_n = P_n / P0 and the moving average; '
          'origin spellings (negative index, 32 location strings) resolve to the same origin for all shapes; left-right mirror '
-         'invariance (all orders), top-bottom for even orders (partial), zero-weight pixels ignored. Tie: conversion matrices and '
+         'invariance (all orders), top-bottom mirror incl. the sign change of odd orders and weight scaling (N <= 3), rmax prefix for nearest/even '
+         'orders (partial), zero-weight pixels ignored. Tie: conversion matrices and '
          'representations compared with the model for all cases (vm_compute). Search: representation agreement at random angles and '
          'seven invariances on the implementation.'),
    note=BASE_NOTE + 'Top-bottom mirror with odd orders, weight scaling and rmax prefix are swept only; "well-conditioned" = cond <= 1e8.',
